@@ -42,6 +42,10 @@ type Pair struct {
 	Env *Env
 	C   *Side
 	S   *Side
+	// ExportOrder varies the order of API calls in ExportImport: "" (serialise, resume, close the old
+	// connection), "close-first" (snapshot, close the old connection, then serialise the snapshot),
+	// "interleave" (another connection's state is serialised while the first blob is still held)
+	ExportOrder string
 }
 
 // NewPair builds the network and both connections (constructor errors are recorded in
